@@ -3,6 +3,7 @@ package props
 import (
 	"fmt"
 	"strings"
+	"verif/internal/jsonv"
 
 	"verif/internal/refmodel"
 	"verif/internal/space"
@@ -43,6 +44,35 @@ func c02(ctx *Ctx) {
 	}
 	runBehaviour(ctx, behaviour{Name: "valid", Cases: cases, Devs: c02Devs, Values: true, K: k, Respell: true,
 		DocFilter: func(sc *SCase, d *refmodel.Doc, tv refmodel.Verdict) bool { return tv == refmodel.Accept }})
+	// undeclared keys that are spelled like the Go field name of a declared property (foo_bar -> FooBar): exactly the undeclared keys are
+	// collected, whatever they look like
+	var fieldKeys []SCase
+	for _, nested := range []bool{false, true} {
+		o := J{"type": "object", "properties": J{"foo_bar": J{"type": "string"}, "n": J{"type": "integer"}}, "additionalProperties": J{"type": "integer"}}
+		root := o
+		if nested {
+			root = J{"type": "object", "properties": J{"o": o}, "required": A{"o"}}
+		}
+		fieldKeys = append(fieldKeys, SCase{ID: fmt.Sprintf("C02/undeclared-key-like-a-field-name/nested=%v", nested), Schema: root, Cfg: baseCfg(),
+			Axes: map[string]string{"pos": "field-name-key", "leaf": "field-name-key"}})
+	}
+	runBehaviour(ctx, behaviour{Name: "field-name-keys", Cases: fieldKeys, Devs: append(append([]string{}, c02Devs...), "ADDL_KEY_LIKE_FIELD_NAME_DROPPED"), Values: true,
+		DocGen: func(sc *SCase, m *refmodel.Model) []refmodel.Doc {
+			var docs []refmodel.Doc
+			for i, inner := range []map[string]any{
+				{"foo_bar": "a", "n": jsonv.MustParse("3"), "x": jsonv.MustParse("1")},
+				{"foo_bar": "a", "FooBar": jsonv.MustParse("7"), "x": jsonv.MustParse("1")},
+				{"FooBar": jsonv.MustParse("7")},
+				{"foo_bar": "a", "N": jsonv.MustParse("5"), "Foo_bar": jsonv.MustParse("9")},
+			} {
+				var v any = inner
+				if _, isNested := sc.Schema["properties"].(J)["o"]; isNested {
+					v = map[string]any{"o": inner}
+				}
+				docs = append(docs, refmodel.Doc{V: v, Text: jsonv.Text(v), Class: fmt.Sprintf("addl:field-name-key-%d", i)})
+			}
+			return docs[:3] // (the fourth differs from declared names by case only: encoding/json's case-insensitive matching, out of scope)
+		}})
 	ctx.Run.Assume("number values are limited to those whose shortest float64 text equals the input text; integers to int64",
 		"date-time samples have no trailing fractional zeros; ipv6 samples are canonical", "absent and null are the same observation for a decoded field",
 		"objects without an explicit additionalProperties keyword have no additional-properties map; undeclared keys are then accepted and ignored")
@@ -50,6 +80,10 @@ func c02(ctx *Ctx) {
 }
 
 func init() {
+	// the clean-up loop of the catch-all block deletes the raw keys by Go field NAME as well as by tag
+	valueDeviations["ADDL_KEY_LIKE_FIELD_NAME_DROPPED"] = func(m *refmodel.Model, sc *SCase, d refmodel.Doc, want, got any, diff string) bool {
+		return sc.Axes["leaf"] == "field-name-key" && strings.Contains(diff, "FooBar")
+	}
 	// typed integer additional properties travel through map[string]interface{} (float64) and mapstructure:
 	// integers beyond 2^53 lose precision, 2^63-1 overflows
 	valueDeviations["ADDL_INT_VIA_FLOAT64"] = func(m *refmodel.Model, sc *SCase, d refmodel.Doc, want, got any, diff string) bool {
